@@ -39,10 +39,10 @@ var Properties = map[string]PropertyDef{
 		c := Config{
 			Functions: []string{"dkls23 signing_bbot.NewCosigner / Cosigner.Round1–Round4", "dkls23 keygen.NewShard", "rvole/bbot Alice/Bob rounds", "ecbbot rounds", "ecdsa.NewSuite / DigestToScalar", "signing.NewCosigner", "Cosigner.Round1/Round2/Round3/ComputePartialSignature/computeEffectivePartialPublicKeys", "signing.NewAggregator/NewCosigningAggregator", "Aggregator.Aggregate", "hjky.Participant.Round1/Round2", "lindell22 dlogProve/dlogVerify (Fiat–Shamir Schnorr PoK)", "hashcom Commit/Open (real BLAKE2b over handles)", "schnorrlike.VerifierTrait.Verify", "feldman.Scheme.ConvertShareToAdditive/ConvertLiftedShareToAdditive", "kw/msp ReconstructionCoefficients", "przs.SampleZeroShare", "trusteddealer.Deal", "keygen.NewShard",
 				"boldyreva02 keygen.NewShortKeyShard/NewLongKeyShard", "boldyreva02 signing.NewShortKeyCosigner/NewLongKeyCosigner, Cosigner.ProducePartialSignature", "boldyreva02 signing.NewShortKeyAggregator/NewLongKeyAggregator, Aggregator.Aggregate", "boldyreva02.PartialSignature.Validate", "bls.Scheme.Signer/Verifier, Signer.Sign, Verifier.Verify, coreSign/coreVerify/popVerify", "feldman.Scheme.ReconstructInTheExponent"},
-			Bounds: map[string]any{"boldyreva02": "threshold BLS over the pairing model (G1, G2, GT in discrete-log representation, e([a]g1,[b]g2)=gT^(ab); hash-to-curve outputs = fresh symbolic discrete logs, pairwise distinct): dealer randomness symbolic; keys in G1 and in G2; Basic, MessageAugmentation and POP; every protocol structure incl. the non-ideal one (a holder with two MSP rows); ≤2 quorums per structure in quick: the aggregator accepts the honest partial signatures, the result verifies under the joint key with the standard verifier of the target scheme and equals [x]·H(m); cosigner constructors refuse an unqualified quorum", "protocol": "Lindell22 with the vanilla (configurable) Schnorr variant, both response signs, Fiat–Shamir compiler, round-by-round API", "dkls23-softspoken": "the SoftSpoken variant (ECBBOT base OTs, SoftSpoken OT extension executed concretely on the bytes derived from interned encodings, RVOLE over it), rounds 1–5, same obligations", "dkls23": "DKLs23 threshold ECDSA, bbot variant (RVOLE over ECBBOT), rounds 1–4 of every cosigner for a 2-party quorum of a 2-of-3 structure (thorough: a CNF structure and a 3-party quorum) with all randomness symbolic: nobody aborts (measure-zero validator refusals excluded), all cosigners report the same R, and the partial signatures satisfy (Σw)·k = (m + r_x·x)·(Σu) with k = dlog R, x = dlog PK, r_x the opaque x-coordinate of R as the library converts it, Σu ≠ 0 — the ECDSA equation for s = Σw/Σu, stated without inversion", "structures/quorums": "threshold, unanimity, CNF, hierarchical, non-ideal gate tree; minimal quorums and minimal+1 (≤3 quorums per structure in quick)", "shares, nonces, zero shares": "symbolic mod the real group order", "messages": "2 concrete messages"},
+			Bounds: map[string]any{"boldyreva02": "threshold BLS over the pairing model (G1, G2, GT in discrete-log representation, e([a]g1,[b]g2)=gT^(ab); hash-to-curve outputs = fresh symbolic discrete logs, pairwise distinct): dealer randomness symbolic; keys in G1 and in G2; Basic, MessageAugmentation and POP; every protocol structure incl. the non-ideal one (a holder with two MSP rows); ≤2 quorums per structure in quick: the aggregator accepts the honest partial signatures, the result verifies under the joint key with the standard verifier of the target scheme and equals [x]·H(m); cosigner constructors refuse an unqualified quorum", "protocol": "Lindell22 with the vanilla (configurable) Schnorr variant, both response signs, Fiat–Shamir compiler, round-by-round API", "dkls23-softspoken": "the SoftSpoken variant (ECBBOT base OTs, SoftSpoken OT extension executed concretely on the bytes derived from interned encodings, RVOLE over it), rounds 1–5, same obligations", "dkls23": "DKLs23 threshold ECDSA, bbot variant (RVOLE over ECBBOT), rounds 1–4 of every cosigner for a 2-party quorum of a 2-of-3 structure (thorough: also a CNF structure; a 3-party quorum is outside: one such case did not finish in 100 minutes) with all randomness symbolic: nobody aborts (measure-zero validator refusals excluded), all cosigners report the same R, and the partial signatures satisfy (Σw)·k = (m + r_x·x)·(Σu) with k = dlog R, x = dlog PK, r_x the opaque x-coordinate of R as the library converts it, Σu ≠ 0 — the ECDSA equation for s = Σw/Σu, stated without inversion", "structures/quorums": "threshold, unanimity, CNF, hierarchical, non-ideal gate tree; minimal quorums and minimal+1 (≤3 quorums per structure in quick)", "shares, nonces, zero shares": "symbolic mod the real group order", "messages": "2 concrete messages"},
 			Assumes: []string{"random-oracle idealisation for transcript/commitment hashes (interned handles)", "fresh random draws are non-zero", "the measure-zero refusals the code itself documents are excluded: effective partial public key = identity (retry abort), aggregated s = 0 or R = identity (shown to be the only way an aggregator can refuse)",
 				"threshold BLS: the pairing model (see C15); a share component equal to zero (probability 1/q over the dealer's randomness; bls.NewPrivateKey refuses a zero scalar) and a partial signature or proof equal to the identity end the path with a reach marker, the signing path itself must be reachable (MustReach)"},
-			Outside: []string{"Lindell17 (Paillier), CGGMP21", "the pairing itself, hash-to-curve, subgroup membership of decoded points (bls12381 arithmetic is replaced by the bilinear model)", "BIP-340 / Mina variants (parity of an affine coordinate)", "networked runner API", "real curves"},
+			Outside: []string{"Lindell17 (Paillier), CGGMP21", "the pairing itself, hash-to-curve, subgroup membership of decoded points (bls12381 arithmetic is replaced by the bilinear model)", "BIP-340 / Mina variants (parity of an affine coordinate)", "DKLs23 with a quorum of 3 or more cosigners", "networked runner API", "real curves"},
 		}
 		return c
 	}},
